@@ -7,14 +7,16 @@ CONSTANT Names    \* names to call (Known plus some that are not registered)
 VARIABLE x
 
 DevIdeal == {}
-DevAsIs == {"TalkNamespaceLookup", "Rel2absNeedsArgument", "Rel2absResolvesOnHost", "PadCountUnbounded", "PadEmptyPaddingDivides", "IntegerStringConversionLimit"}
+DevAsIs == {"TalkNamespaceLookup", "Rel2absNeedsArgument", "Rel2absResolvesOnHost", "PadCountUnbounded", "PadEmptyPaddingDivides", "IntegerStringConversionLimit",
+            "InvokeNeedsModuleName"}
 \* the registered names as read at the time of writing (the harness passes the
 \* real list of the working tree to Gen_ParserFns)
 KnownBuiltin ==
   Unimplemented \cup
   {"TALKPAGENAME", "TALKSPACE", "#rel2abs", "padleft", "padright", "#pad", "#expr", "#time",
    "#timel", "#dateformat", "#formatdate", "#property", "#statements", "fullurl", "fullurle",
-   "PAGENAME", "#len", "#if", "#switch", "formatnum", "plural", "#titleparts", "lc", "ns", "int"}
+   "PAGENAME", "#len", "#if", "#switch", "formatnum", "plural", "#titleparts", "lc", "ns", "int",
+   "SUBJECTSPACE", "NAMESPACE", "NAMESPACENUMBER", "FULLPAGENAME", "nse", "localurl", "#ifexist", "#invoke"}
 NamesBuiltin == KnownBuiltin \cup {"#nosuchfunction", "#foo"}
 
 Numeric == {"NEG", "ZERO", "SEVEN", "HUGE", "WORD", "EMPTY", "SUP", "ARDIG"}
@@ -30,10 +32,79 @@ Vectors4 ==
 St(ph, name, argv, title) == [ph |-> ph, name |-> name, argv |-> argv, title |-> title]
 Init == x = St("root", "", <<>>, "plain")
 PickName == x.ph = "root" /\ \E n \in Names : x' = St("fn", n, <<>>, "plain")
-MakeCall == x.ph = "fn" /\ (\/ \E v \in Vectors, t \in Titles : x' = St("call", x.name, v, t)
-                            \/ \E v \in Vectors4 : x' = St("call", x.name, v, "plain"))
+\* #invoke with two or more arguments runs Lua (C06..C09): only the calls that stop before it
+Admitted(name, v) == name = "#invoke" => Len(v) <= 1
+MakeCall == x.ph = "fn" /\ (\/ \E v \in Vectors, t \in Titles : Admitted(x.name, v) /\ x' = St("call", x.name, v, t)
+                            \/ \E v \in Vectors4 : Admitted(x.name, v) /\ x' = St("call", x.name, v, "plain"))
 Next == PickName \/ MakeCall
 Spec == Init /\ [][Next]_x
 
 EveryCallEndsInBand == x.ph = "call" => Total(x.name, x.argv, x.title)
+
+(* ================= the language-configuration dimension ================= *)
+\* names whose result depends on the namespace of the page title / of a title argument (read off
+\* parserfns.py; the harness adds what a probe of the working tree finds besides)
+NsFnsBuiltin == {"TALKPAGENAME", "TALKSPACE", "SUBJECTSPACE", "ARTICLESPACE", "NAMESPACE", "NAMESPACENUMBER", "FULLPAGENAME", "ns", "nse"}
+\* a small instance for M: an English-like table, a table with local names, aliases, the irregular
+\* key pattern and a subject namespace without talk namespace, and one with an orphan talk namespace
+Ns(key, id, name, aliases, istalk, lower) == [key |-> key, id |-> id, name |-> name, aliases |-> aliases, istalk |-> istalk, lower |-> lower]
+SitesBuiltin == <<
+  [lang |-> "en", syn |-> FALSE, wide |-> TRUE, ns |-> <<
+     Ns("Media", 0 - 2, "Media", <<>>, FALSE, "media"), Ns("Special", 0 - 1, "Special", <<>>, FALSE, "special"),
+     Ns("Main", 0, "Main", <<>>, FALSE, "main"), Ns("Talk", 1, "Talk", <<>>, TRUE, "talk"),
+     Ns("Project", 4, "Wiktionary", <<"WT">>, FALSE, "project"), Ns("Project talk", 5, "Wiktionary talk", <<>>, TRUE, "project talk"),
+     Ns("Template", 10, "Template", <<"T">>, FALSE, "template"), Ns("Template talk", 11, "Template talk", <<>>, TRUE, "template talk")>>],
+  [lang |-> "xx", syn |-> FALSE, wide |-> TRUE, ns |-> <<
+     Ns("Special", 0 - 1, "Speciale", <<>>, FALSE, "special"),
+     Ns("Main", 0, "", <<>>, FALSE, "main"), Ns("Talk", 1, "Diskuto", <<>>, TRUE, "talk"),
+     Ns("Template", 10, "Modelo", <<>>, FALSE, "template"), Ns("Template talk", 11, "Diskuto Modelo", <<>>, TRUE, "template talk"),
+     Ns("Portalo", 104, "Portalo", <<"P">>, FALSE, "portalo"), Ns("Diskuto Portalo", 105, "Diskuto Portalo", <<>>, TRUE, "diskuto portalo"),
+     Ns("Topic", 2600, "Temo", <<>>, FALSE, "topic")>>],
+  [lang |-> "yy", syn |-> TRUE, wide |-> FALSE, ns |-> <<
+     Ns("Main", 0, "", <<>>, FALSE, "main"), Ns("Talk", 1, "Talk", <<>>, TRUE, "talk"),
+     Ns("Template", 10, "Template", <<>>, FALSE, "template"), Ns("Template talk", 11, "Template talk", <<>>, TRUE, "template talk"),
+     Ns("Orphan talk", 711, "Orphan talk", <<>>, TRUE, "orphan talk")>>] >>
+
+\* which namespaces / spellings / positions a name is called with: everything for the names of NsFns;
+\* for the others the namespaces without partner, the first pair with an irregular key, Talk and Template,
+\* as written in the table, as page title and as argument
+\* (a site that is not "wide" -- the bulk of the shipped tables in the thorough tier -- gets the spellings
+\*  of the table only and, for the other names, the namespaces that have no partner)
+Full(name) == name \in NsFns
+Wide(s) == Sites[s].wide
+NoPartner(s, j) == Negative(s, j) \/ NoTalkPartner(s, j) \/ NoSubject(s, j)
+FirstIrregular(s, j) == IrregularKey(s, j) /\ \A k \in DOMAIN Tab(s) : IrregularKey(s, k) => E(s, k).id >= E(s, j).id
+NsSel(name, s) == IF Full(name) THEN DOMAIN Tab(s)
+                  ELSE IF Wide(s) THEN {j \in DOMAIN Tab(s) : NoPartner(s, j) \/ E(s, j).id \in {1, 10, 11} \/ FirstIrregular(s, j)
+                                                               \/ (E(s, j).istalk /\ ~NoSubject(s, j) /\ FirstIrregular(s, SubjectIdx(s, j)))}
+                  ELSE {j \in DOMAIN Tab(s) : NoPartner(s, j)}
+FormSel(name, s, j) == IF ~Full(name) THEN {"key"} ELSE IF Wide(s) THEN FormsOf(s, j) ELSE FormsOf(s, j) \ {"lower", "alias"}
+PosSel(name, s, j, form) ==
+  IF ~Full(name) THEN {"title", "arg"}
+  ELSE IF Wide(s) THEN (IF form = "key" THEN Positions ELSE Positions \ {"argid"})
+  ELSE IF form = "key" /\ Structural(s, j) THEN Positions ELSE {"title", "arg"}
+PseudoForms(s) == IF Wide(s) THEN {"bare", "unknown"} ELSE {"unknown"}
+StS(ph, name, s, j, form, pos) == [ph |-> ph, name |-> name, s |-> s, j |-> j, form |-> form, pos |-> pos]
+InitS == x = StS("root", "", 0, 0, "none", "none")
+PickNameSite == x.ph = "root" /\ \E n \in Names, s \in DOMAIN Sites : x' = StS("fn", n, s, 0, "none", "none")
+MakeCallS == x.ph = "fn" /\ (\/ \E j \in NsSel(x.name, x.s) : \E form \in FormSel(x.name, x.s, j) : \E pos \in PosSel(x.name, x.s, j, form) :
+                                   x' = StS("call", x.name, x.s, j, form, pos)
+                             \/ \E form \in PseudoForms(x.s), pos \in {"title", "arg"} : x' = StS("call", x.name, x.s, 0, form, pos))
+NextS == PickNameSite \/ MakeCallS
+SpecS == InitS /\ [][NextS]_x
+
+EverySiteCallEndsInBand == x.ph = "call" => TotalS(x.name, x.s, x.j, x.form, x.pos)
+\* the reference is well defined on every table: the talk / subject namespace of a namespace is a
+\* namespace of the table, it is a talk / subject namespace unless the namespace has none, and
+\* taking it twice changes nothing
+PartnersWellDefined ==
+  x.ph = "fn" => \A j \in DOMAIN Tab(x.s) :
+     LET t == TalkIdx(x.s, j)
+         u == SubjectIdx(x.s, j)
+     IN /\ t \in DOMAIN Tab(x.s) /\ u \in DOMAIN Tab(x.s)
+        /\ (E(x.s, t).istalk \/ Negative(x.s, j) \/ NoTalkPartner(x.s, j))
+        /\ (~E(x.s, u).istalk \/ NoSubject(x.s, j))
+        /\ TalkIdx(x.s, t) = t /\ SubjectIdx(x.s, u) = u
+\* the unknown prefix is unknown in every table
+UnknownIsUnknown == x.ph = "fn" => UnknownPrefix \notin KeySet(x.s) /\ \A j \in DOMAIN Tab(x.s) : E(x.s, j).name # UnknownPrefix
 =============================================================================
